@@ -12,7 +12,9 @@ pub fn ascii() -> Vec<char> {
 /// character, combining marks, format characters, characters of 2, 3 and 4
 /// UTF-8 bytes, and characters whose UTF-8 encoding contains the bytes 0x85 /
 /// 0xA0.
-pub const SPECIALS: [char; 64] = [
+pub const SPECIALS: [char; 75] = [
+    // the edges of every UTF-8 length and lead-byte class (C2 80 .. F4 8F BF BF)
+    '\u{7ff}', '\u{800}', '\u{d7ff}', '\u{e000}', '\u{ffff}', '\u{10000}', '\u{3ffff}', '\u{40000}', '\u{fffff}', '\u{100000}', '\u{10ffff}',
     // case mappings into / out of ASCII
     '\u{212a}', '\u{130}', '\u{131}', '\u{17f}', '\u{df}', '\u{1c5}', '\u{fb01}', '\u{3a3}',
     // decimal digits of other scripts, other numerics
